@@ -9,10 +9,21 @@
    corrected tensor, robust_grad rho' bs l = sum_i rho'(|R_i|^2) (J_i^T R_i)_l.
    fasttriggs rho1 bs / triggs rho1 rho2 bs : rho1, rho2 = what autograd returns for rho', rho''.
    The model follows the repaired source (e6f8307, 298dcfc, af4d69c); kernel_old / triggs_old are the
-   previous behaviour, used only by the C09_old_..._refuted history theorems. *)
+   previous behaviour, used only by the C09_old_..._refuted history theorems.
+
+   Second part (Proofs/Kernel2-5.v).  mapM f xs = forward on a whole (flattened) tensor: Some iff every
+   element is accepted.  path_at path t = a residual block moving with a scalar parameter t (one
+   function per component); tangent_to l b path = it passes through R_i at t = 0 with velocity column l
+   of J_i (any differentiable residual function, not only the linear one lin_path R c = R + t c);
+   robust_loss rho Rs = sum_i rho(|R_i|^2) = RobustModel.loss; loss_along rho paths t = that loss along
+   the paths.  shift_block m s (R, J) = (R + s J e_m, J) (the linearised model moved along parameter m),
+   full_hess rho1 rho2 bs l m = sum_i rho1 (J_i^T J_i)_lm + 2 rho2 (J_i^T R_i)_l (J_i^T R_i)_m,
+   lin2_loss rho bs l m t s = sum_i rho(|R_i + s J_i e_m + t J_i e_l|^2),
+   triggs_alpha g1 g2 x = 1 - sqrt(1 + 2 x g2 / g1) (Triggs' alpha on a masked block). *)
 From Coq Require Import Reals List.
 From Coquelicot Require Import Coquelicot.
-From PV Require Import Base.Num Model.Kernel Proofs.Kernel.
+From PV Require Import Base.Num Model.Kernel Proofs.Kernel Proofs.Kernel2 Proofs.Kernel3 Proofs.Kernel4
+  Proofs.Kernel5 Proofs.Kernel6.
 Import ListNotations.
 Local Open Scope R_scope.
 #[local] Remove Hints NumQ NumZ : typeclass_instances.
@@ -157,6 +168,263 @@ Example C09_params_satisfiable :
   kernel_params KScale (1/2) 0 /\ wf_block 2 ([1; 0; 2], [[1; 2]; [3; 4]; [5; 6]]).
 Proof. exact params_satisfiable. Qed.
 
+
+(* ================================================================== second part: strengthened clauses *)
+(* ------------------------------------------------------------------ kernels, whole tensors *)
+(* forward on a tensor of any shape (flattened): `assert torch.all(input >= 0)`, then the documented
+   closed form elementwise; accepted iff every element is >= 0; one negative element rejects the tensor *)
+Theorem C09_kernel_tensor_elementwise : forall k p1 p2 (xs : list R), kernel_params k p1 p2 ->
+  Forall (fun x => 0 <= x) xs -> mapM (kernel k p1 p2) xs = Some (map (documented_form k p1 p2) xs).
+Proof. exact kernel_tensor_closed_form. Qed.
+Theorem C09_kernel_tensor_accepts_iff : forall k p1 p2 (xs : list R), kernel_params k p1 p2 ->
+  (exists ys, mapM (kernel k p1 p2) xs = Some ys) <-> Forall (fun x => 0 <= x) xs.
+Proof. exact kernel_tensor_accepts_iff. Qed.
+Theorem C09_kernel_tensor_rejects_negative : forall k p1 p2 (xs : list R),
+  Exists (fun x => x < 0) xs -> mapM (kernel k p1 p2) xs = None.
+Proof. exact kernel_tensor_rejects_negative. Qed.
+
+(* parameters outside the documented range are rejected (constructor assertion); Arctan's constructor
+   asserts nothing and delta = 0 makes forward divide by zero *)
+Theorem C09_kernel_rejects_bad_params : forall k p1 p2 x, k <> KArctan -> ~ kernel_params k p1 p2 ->
+  kernel k p1 p2 x = None.
+Proof. exact kernel_rejects_bad_params. Qed.
+Theorem C09_arctan_delta0_undefined : forall p2 x : R, kernel KArctan 0 p2 x = None.
+Proof. exact arctan_delta0_undefined. Qed.
+
+(* rho' > 0 (strictly) for every built-in kernel on x >= 0, and its value at a zero residual *)
+Theorem C09_kernel_slope_positive : forall k p1 p2 x, kernel_params k p1 p2 -> 0 <= x ->
+  0 < kernel_d1 k p1 p2 x.
+Proof. exact kernel_d1_pos. Qed.
+Theorem C09_kernel_slope_at_0 : forall k p1 p2, kernel_params k p1 p2 ->
+  kernel_d1 k p1 p2 0 =
+  match k with
+  | KHuber | KPseudoHuber | KCauchy | KArctan => 1
+  | KSoftLOne => p1 * p1
+  | KTolerant => exp (- p1 / p2) / (1 + exp (- p1 / p2))
+  | KScale => p1
+  end.
+Proof. exact kernel_d1_at_0. Qed.
+
+(* Huber: continuous everywhere; at the threshold x = delta^2 the slope function rho' is 1 on the left
+   and delta / sqrt x from the threshold on, autograd's rho'' there (- 1 / (2 delta^2)) is the
+   derivative of the right-hand piece, the left-hand piece has derivative 0, and the two-sided second
+   derivative does NOT exist (which is why C09_kernel_derivatives excludes that point) *)
+Theorem C09_huber_continuous : forall d p2 x, 0 < d -> continuous (fun t => kernel_f KHuber d p2 t) x.
+Proof. exact huber_continuous. Qed.
+Theorem C09_huber_second_derivative_at_threshold : forall d p2, 0 < d ->
+  (forall t, t < d * d -> kernel_d1 KHuber d p2 t = 1) /\
+  (forall t, d * d <= t -> kernel_d1 KHuber d p2 t = d / sqrt t) /\
+  kernel_d2 KHuber d p2 (d * d) = - (1 / (2 * (d * d))) /\
+  is_derive (fun t => d / sqrt t) (d * d) (kernel_d2 KHuber d p2 (d * d)) /\
+  is_derive (fun _ : R => 1) (d * d) 0 /\
+  ~ ex_derive (kernel_d1 KHuber d p2) (d * d).
+Proof.
+  intros d p2 Hd. destruct (huber_d1_pieces d p2 Hd) as [HL HR].
+  split; [exact HL|]. split; [exact HR|]. split; [now apply huber_d2_threshold_value|].
+  split; [now apply huber_d2_right_piece|]. split; [apply huber_d2_left_piece|now apply huber_d2_not_derivable].
+Qed.
+
+(* ------------------------------------------------------------------ correctors: when they return, shapes *)
+(* exact characterisation: FastTriggs returns iff rho' >= 0 on every block; Triggs iff moreover
+   rho' > 0 on the masked blocks (otherwise the float code produces NaN) *)
+Theorem C09_fasttriggs_defined_iff : forall (rho1 : R -> R) (bs : list (@block R)),
+  (exists bs', fasttriggs rho1 bs = Some bs') <-> (forall b, In b bs -> 0 <= rho1 (sqnorm b)).
+Proof. exact fasttriggs_defined_iff. Qed.
+Theorem C09_triggs_defined_iff : forall (rho1 rho2 : R -> R) (bs : list (@block R)),
+  (exists bs', triggs rho1 rho2 bs = Some bs') <->
+  (forall b, In b bs -> 0 <= rho1 (sqnorm b) /\
+                        (triggs_mask (sqnorm b) (rho2 (sqnorm b)) = true -> 0 < rho1 (sqnorm b))).
+Proof. exact triggs_defined_iff. Qed.
+(* the corrected tensor has the shape of the input (same number of blocks, d rows of width p each),
+   so the sums J'^T R', J'^T J' above run over complete columns (no truncation by [dot] / [nth]) *)
+Theorem C09_fasttriggs_preserves_shape : forall (rho1 : R -> R) (p : nat) (bs bs' : list (@block R)),
+  fasttriggs rho1 bs = Some bs' -> Forall (wf_block p) bs ->
+  length bs' = length bs /\ Forall (wf_block p) bs'.
+Proof. exact fasttriggs_preserves_shape. Qed.
+Theorem C09_triggs_preserves_shape : forall (rho1 rho2 : R -> R) (p : nat) (bs bs' : list (@block R)),
+  triggs rho1 rho2 bs = Some bs' -> Forall (wf_block p) bs ->
+  length bs' = length bs /\ Forall (wf_block p) bs'.
+Proof. exact triggs_preserves_shape. Qed.
+
+(* ------------------------------------------------------------------ residual exactly zero *)
+(* R_i = 0 (any d, any rho'' - Triggs' mask is off at x = 0): both correctors return R' = 0 and
+   J' = sqrt(rho'(0)) J; with a built-in kernel sqrt(rho'(0)) > 0, and = 1 (J unchanged) for Huber,
+   PseudoHuber, Cauchy, Arctan *)
+Theorem C09_correctors_at_zero_residual : forall (g1 g2 : R) Rv J, 0 <= g1 ->
+  Forall (fun r => r = 0) Rv ->
+  fasttriggs_block g1 Rv J = Some (Rv, map (scale_vec (sqrt g1)) J) /\
+  triggs_block g1 g2 Rv J = Some (Rv, map (scale_vec (sqrt g1)) J).
+Proof. exact correctors_zero_residual_block. Qed.
+Theorem C09_correctors_at_zero_residual_builtin : forall k p1 p2 Rv J, kernel_params k p1 p2 ->
+  Forall (fun r => r = 0) Rv ->
+  let s := sqrt (kernel_d1 k p1 p2 0) in
+  0 < s /\
+  fasttriggs_kernel k p1 p2 [(Rv, J)] = Some [(Rv, map (scale_vec s) J)] /\
+  triggs_kernel k p1 p2 [(Rv, J)] = Some [(Rv, map (scale_vec s) J)].
+Proof. exact correctors_zero_residual_kernel. Qed.
+Theorem C09_correctors_at_zero_residual_unit_slope : forall k p1 p2 Rv J, kernel_params k p1 p2 ->
+  k = KHuber \/ k = KPseudoHuber \/ k = KCauchy \/ k = KArctan ->
+  Forall (fun r => r = 0) Rv ->
+  fasttriggs_kernel k p1 p2 [(Rv, J)] = Some [(Rv, J)] /\ triggs_kernel k p1 p2 [(Rv, J)] = Some [(Rv, J)].
+Proof. exact correctors_zero_residual_unit_slope. Qed.
+(* any residual, built-in kernel: both correctors scale R_i and J_i by the same s = sqrt(rho') > 0 *)
+Theorem C09_correctors_builtin_block : forall (k : kname) p1 p2 Rv J, kernel_params k p1 p2 ->
+  let s := sqrt (kernel_d1 k p1 p2 (dot Rv Rv)) in
+  0 < s /\ fasttriggs_kernel k p1 p2 [(Rv, J)] = Some [(scale_vec s Rv, map (scale_vec s) J)]
+        /\ triggs_kernel k p1 p2 [(Rv, J)] = Some [(scale_vec s Rv, map (scale_vec s) J)].
+Proof. exact fasttriggs_kernel_block. Qed.
+
+(* ------------------------------------------------------------------ Triggs: documented closed form *)
+(* alpha is the non-positive root of the documented quadratic alpha^2/2 - alpha - (rho''/rho')|R|^2 = 0,
+   1 - alpha <> 0, and - x rho''/rho' <= alpha <= 0 *)
+Theorem C09_triggs_alpha_root : forall g1 g2 x : R, 0 < g1 -> 0 < g2 -> 0 <= x ->
+  / 2 * (triggs_alpha g1 g2 x * triggs_alpha g1 g2 x) - triggs_alpha g1 g2 x - g2 / g1 * x = 0 /\
+  triggs_alpha g1 g2 x <= 0 /\ 1 - triggs_alpha g1 g2 x <> 0.
+Proof. exact triggs_alpha_root. Qed.
+Theorem C09_triggs_alpha_bound : forall g1 g2 x : R, 0 < g1 -> 0 < g2 -> 0 <= x ->
+  - (x * g2 / g1) <= triggs_alpha g1 g2 x <= 0.
+Proof. exact triggs_alpha_bound. Qed.
+(* on a masked block (rho'' > 0, R_i <> 0, rho' > 0), any d and p, entry by entry:
+   R'_k = sqrt(rho') / (1 - alpha) R_k,   J'_kl = sqrt(rho') (J_kl - alpha R_k (R^T J)_l / |R|^2) *)
+Theorem C09_triggs_documented_form : forall (g1 g2 : R) Rv J p, 0 < g1 -> wf_block p (Rv, J) ->
+  triggs_mask (dot Rv Rv) g2 = true ->
+  exists R' J', triggs_block g1 g2 Rv J = Some (R', J') /\
+    length R' = length Rv /\ length J' = length Rv /\
+    let alpha := triggs_alpha g1 g2 (dot Rv Rv) in
+    (forall k, nth k R' 0 = sqrt g1 / (1 - alpha) * nth k Rv 0) /\
+    (forall k l, (k < length Rv)%nat -> (l < p)%nat ->
+       nth l (nth k J' []) 0
+       = sqrt g1 * (nth l (nth k J []) 0 - alpha * nth k Rv 0 * dot Rv (col J l) / dot Rv Rv)).
+Proof. exact triggs_masked_entries. Qed.
+(* on a masked block with (J^T R)_l <> 0 Triggs does differ from FastTriggs *)
+Theorem C09_triggs_differs_from_fasttriggs_on_mask : forall (g1 g2 : R) Rv J bT bF p l,
+  wf_block p (Rv, J) -> (l < p)%nat -> triggs_mask (dot Rv Rv) g2 = true -> JtR (Rv, J) l <> 0 ->
+  triggs_block g1 g2 Rv J = Some bT -> fasttriggs_block g1 Rv J = Some bF -> bT <> bF.
+Proof. exact triggs_differs_on_mask. Qed.
+
+(* second-order clause in one formula for EVERY tensor (rows in mixed regimes, any d, p): Triggs keeps
+   exactly the positive part of the curvature (R_i = 0 contributes nothing since J_i^T R_i = 0) *)
+Theorem C09_triggs_hess_positive_part : forall (rho1 rho2 : R -> R) (p : nat) (bs bs' : list (@block R)),
+  triggs rho1 rho2 bs = Some bs' -> Forall (wf_block p) bs ->
+  forall l m, (l < p)%nat -> (m < p)%nat ->
+  bsum (fun b => JtJ b l m) bs' = full_hess rho1 (fun x => Rmax 0 (rho2 x)) bs l m.
+Proof. exact triggs_hess_positive_part. Qed.
+
+(* ------------------------------------------------------------------ the preserved quantities ARE derivatives *)
+(* "the optimiser's descent direction is the gradient of the robust loss it reports": for ANY
+   differentiable residual function whose value / Jacobian column l at the current parameters are
+   R_i / J_i e_l, the derivative of sum_i rho(|R_i|^2) along parameter l is 2 (J'^T R')_l *)
+Theorem C09_fasttriggs_descent_is_loss_gradient : forall (rho rho1 : R -> R) (l : nat)
+    (bs bs' : list (@block R)) (paths : list (list (R -> R))),
+  (forall x, 0 <= x -> is_derive rho x (rho1 x)) -> fasttriggs rho1 bs = Some bs' ->
+  Forall2 (tangent_to l) bs paths ->
+  is_derive (loss_along rho paths) 0 (2 * bsum (fun b => JtR b l) bs').
+Proof. exact fasttriggs_descent_is_loss_gradient. Qed.
+Theorem C09_triggs_descent_is_loss_gradient : forall (rho rho1 rho2 : R -> R) (p l : nat)
+    (bs bs' : list (@block R)) (paths : list (list (R -> R))),
+  (forall x, 0 <= x -> is_derive rho x (rho1 x)) -> triggs rho1 rho2 bs = Some bs' ->
+  Forall (wf_block p) bs -> (l < p)%nat -> Forall2 (tangent_to l) bs paths ->
+  is_derive (loss_along rho paths) 0 (2 * bsum (fun b => JtR b l) bs').
+Proof. exact triggs_descent_is_loss_gradient. Qed.
+(* the seven built-in kernels: both correctors return the same tensor and 2 (J'^T R')_l is the
+   derivative of the reported loss sum_i kernel(|R_i|^2), zero / threshold residuals included *)
+Theorem C09_builtin_descent_is_loss_gradient : forall k p1 p2 (l : nat) (bs : list (@block R))
+    (paths : list (list (R -> R))),
+  kernel_params k p1 p2 -> Forall2 (tangent_to l) bs paths ->
+  exists bs', fasttriggs_kernel k p1 p2 bs = Some bs' /\ triggs_kernel k p1 p2 bs = Some bs' /\
+    is_derive (loss_along (fun x => kernel_f k p1 p2 x) paths) 0 (2 * bsum (fun b => JtR b l) bs').
+Proof. exact builtin_descent_is_loss_gradient. Qed.
+(* such paths exist for every well-shaped tensor (the linearised residual R + t J e_l) *)
+Theorem C09_tangent_paths_exist : forall (p l : nat) (bs : list (@block R)), Forall (wf_block p) bs ->
+  Forall2 (tangent_to l) bs (map (fun b => lin_path (fst b) (col (snd b) l)) bs).
+Proof. exact tangent_paths_exist. Qed.
+
+(* second order: where rho'' >= 0 on every block, Triggs' J'^T J' is the derivative (along parameter m)
+   of the robust gradient of the linearised problem; with the loss itself:
+   d/dt L(0,0) = 2 (J'^T R')_l  and  d/ds d/dt L(0,0) = 2 (J'^T J')_lm, so the normal equations
+   J'^T J' step = - J'^T R' are Newton's method on the linearised robust loss *)
+Theorem C09_triggs_hess_is_gradient_derivative : forall (rho1 rho2 : R -> R) (p : nat)
+    (bs bs' : list (@block R)),
+  triggs rho1 rho2 bs = Some bs' -> Forall (wf_block p) bs ->
+  (forall b, In b bs -> 0 <= rho2 (sqnorm b)) ->
+  (forall b, In b bs -> is_derive rho1 (sqnorm b) (rho2 (sqnorm b))) ->
+  forall l m, (l < p)%nat -> (m < p)%nat ->
+  is_derive (fun s => robust_grad rho1 (map (shift_block m s) bs) l) 0 (bsum (fun b => JtJ b l m) bs').
+Proof. exact triggs_hess_is_gradient_derivative. Qed.
+Theorem C09_triggs_is_newton_on_linearised_loss : forall (rho rho1 rho2 : R -> R) (p : nat)
+    (bs bs' : list (@block R)),
+  (forall x, 0 <= x -> is_derive rho x (rho1 x)) ->
+  triggs rho1 rho2 bs = Some bs' -> Forall (wf_block p) bs ->
+  (forall b, In b bs -> 0 <= rho2 (sqnorm b)) ->
+  (forall b, In b bs -> is_derive rho1 (sqnorm b) (rho2 (sqnorm b))) ->
+  forall l m, (l < p)%nat -> (m < p)%nat ->
+  is_derive (fun t => lin2_loss rho bs l m t 0) 0 (2 * bsum (fun b => JtR b l) bs') /\
+  is_derive (fun s => Derive (fun t => lin2_loss rho bs l m t s) 0) 0 (2 * bsum (fun b => JtJ b l m) bs').
+Proof. exact triggs_is_newton_on_linearised_loss. Qed.
+
+(* ------------------------------------------------------------------ batch shapes, residual groups *)
+(* a leading batch dimension can be flattened: the corrector of the flattened tensor is the flattening
+   of the correctors of the sub-batches (None iff one of them is None) - by iteration, any batch shape
+   (..., d) reduces to the list of blocks of the theorems above *)
+Theorem C09_fasttriggs_batch_flatten : forall (rho1 : R -> R) (bss : list (list (@block R))),
+  fasttriggs rho1 (concat bss) = option_map (@concat (@block R)) (mapM (fasttriggs rho1) bss).
+Proof. exact fasttriggs_concat. Qed.
+Theorem C09_triggs_batch_flatten : forall (rho1 rho2 : R -> R) (bss : list (list (@block R))),
+  triggs rho1 rho2 (concat bss) = option_map (@concat (@block R)) (mapM (triggs rho1 rho2) bss).
+Proof. exact triggs_concat. Qed.
+Theorem C09_fasttriggs_grad_nested_batch : forall (rho1 : R -> R) (bss bss' : list (list (@block R))),
+  mapM (fasttriggs rho1) bss = Some bss' ->
+  fasttriggs rho1 (concat bss) = Some (concat bss') /\
+  forall l, bsum (fun b => JtR b l) (concat bss')
+            = fold_right (fun bs acc => robust_grad rho1 bs l + acc) 0 bss.
+Proof. exact fasttriggs_grad_nested. Qed.
+Theorem C09_triggs_grad_nested_batch : forall (rho1 rho2 : R -> R) (p : nat) (bss bss' : list (list (@block R))),
+  mapM (triggs rho1 rho2) bss = Some bss' -> Forall (Forall (wf_block p)) bss ->
+  triggs rho1 rho2 (concat bss) = Some (concat bss') /\
+  forall l, (l < p)%nat ->
+    bsum (fun b => JtR b l) (concat bss') = fold_right (fun bs acc => robust_grad rho1 bs l + acc) 0 bss.
+Proof. exact triggs_grad_nested. Qed.
+(* several residual groups, each with its own kernel (additivity only; which kernel / corrector goes
+   with which residual is decided in the optimizer's constructor and is covered by the tie) *)
+Theorem C09_fasttriggs_groups_grad : forall (groups : list ((R -> R) * list (@block R)))
+    (outs : list (list (@block R))),
+  mapM (fun g => fasttriggs (fst g) (snd g)) groups = Some outs ->
+  forall l, bsum (fun b => JtR b l) (concat outs)
+            = fold_right (fun g acc => robust_grad (fst g) (snd g) l + acc) 0 groups.
+Proof. exact fasttriggs_groups_grad. Qed.
+
+(* ------------------------------------------------------------------ non-vacuity witnesses *)
+(* a masked block (rho = x^2, R = [2], J = [[1]]): Triggs returns, J'^T R' = 16, J'^T J' = 24 = 8 + 16,
+   FastTriggs gives 8 *)
+Example C09_masked_witness :
+  exists bs', triggs sq_rho1 sq_rho2 refute_blocks = Some bs' /\
+    (forall b, In b refute_blocks -> triggs_mask (sqnorm b) (sq_rho2 (sqnorm b)) = true) /\
+    bsum (fun b => JtR b 0%nat) bs' = 16 /\ bsum (fun b => JtJ b 0%nat 0%nat) bs' = 24 /\
+    (forall bF, fasttriggs sq_rho1 refute_blocks = Some bF -> bsum (fun b => JtJ b 0%nat 0%nat) bF = 8).
+Proof. exact masked_witness. Qed.
+(* one tensor (d = 2, p = 2) with a block in each regime - R = 0, rho'' < 0, rho'' = 0, rho'' > 0 - for
+   the user kernel rho = x^3/6 - x^2/2 + x: Triggs returns a tensor of the same shape, only the last
+   block is masked, the gradient identity holds, J'^T J' = Gauss-Newton part + 2 in every entry, and
+   Triggs <> FastTriggs on it *)
+Example C09_mixed_regime_witness :
+  exists bs', triggs mix_rho1 mix_rho2 mix_blocks = Some bs' /\
+    map (fun b => triggs_mask (sqnorm b) (mix_rho2 (sqnorm b))) mix_blocks = [false; false; false; true] /\
+    length bs' = 4%nat /\ Forall (wf_block 2) bs' /\
+    (forall l, (l < 2)%nat -> bsum (fun b => JtR b l) bs' = robust_grad mix_rho1 mix_blocks l) /\
+    (forall l m, (l < 2)%nat -> (m < 2)%nat ->
+       bsum (fun b => JtJ b l m) bs' = gn_hess mix_rho1 mix_blocks l m + 2) /\
+    triggs mix_rho1 mix_rho2 mix_blocks <> fasttriggs mix_rho1 mix_blocks.
+Proof. exact mixed_regime_witness. Qed.
+Example C09_mixed_regime_kernel : forall x : R,
+  is_derive mix_rho x (mix_rho1 x) /\ is_derive mix_rho1 x (mix_rho2 x) /\ 0 < mix_rho1 x.
+Proof. intros x. destruct (mix_rho_derivs x). split; [|split]; auto. apply mix_rho1_pos. Qed.
+Example C09_newton_hypotheses_witness :
+  (forall x, 0 <= x -> is_derive sq_rho x (sq_rho1 x)) /\
+  (forall b, In b refute_blocks -> 0 <= sq_rho2 (sqnorm b)) /\
+  (forall b, In b refute_blocks -> is_derive sq_rho1 (sqnorm b) (sq_rho2 (sqnorm b))) /\
+  Forall2 (tangent_to 0) refute_blocks (map (fun b => lin_path (fst b) (col (snd b) 0)) refute_blocks).
+Proof. exact newton_hypotheses_witness. Qed.
+
 Print Assumptions C09_kernel_closed_form_finite. Print Assumptions C09_kernel_value_at_0.
 Print Assumptions C09_kernel_nondecreasing. Print Assumptions C09_huber_C1_at_threshold.
 Print Assumptions C09_kernel_rejects_negative. Print Assumptions C09_old_scale_rejects_negative_refuted.
@@ -170,3 +438,41 @@ Print Assumptions C09_triggs_mask_meaning. Print Assumptions C09_triggs_eq_fastt
 Print Assumptions C09_triggs_eq_fasttriggs_unmasked_tensor. Print Assumptions C09_triggs_builtin_kernels.
 Print Assumptions C09_old_triggs_grad_refuted. Print Assumptions C09_triggs_grad_witness_now.
 Print Assumptions C09_old_triggs_returns_refuted.
+Print Assumptions C09_kernel_tensor_elementwise.
+Print Assumptions C09_kernel_tensor_accepts_iff.
+Print Assumptions C09_kernel_tensor_rejects_negative.
+Print Assumptions C09_kernel_rejects_bad_params.
+Print Assumptions C09_arctan_delta0_undefined.
+Print Assumptions C09_kernel_slope_positive.
+Print Assumptions C09_kernel_slope_at_0.
+Print Assumptions C09_huber_continuous.
+Print Assumptions C09_huber_second_derivative_at_threshold.
+Print Assumptions C09_fasttriggs_defined_iff.
+Print Assumptions C09_triggs_defined_iff.
+Print Assumptions C09_fasttriggs_preserves_shape.
+Print Assumptions C09_triggs_preserves_shape.
+Print Assumptions C09_correctors_at_zero_residual.
+Print Assumptions C09_correctors_at_zero_residual_builtin.
+Print Assumptions C09_correctors_at_zero_residual_unit_slope.
+Print Assumptions C09_correctors_builtin_block.
+Print Assumptions C09_triggs_alpha_root.
+Print Assumptions C09_triggs_alpha_bound.
+Print Assumptions C09_triggs_documented_form.
+Print Assumptions C09_triggs_differs_from_fasttriggs_on_mask.
+Print Assumptions C09_triggs_hess_positive_part.
+Print Assumptions C09_fasttriggs_descent_is_loss_gradient.
+Print Assumptions C09_triggs_descent_is_loss_gradient.
+Print Assumptions C09_tangent_paths_exist.
+Print Assumptions C09_triggs_hess_is_gradient_derivative.
+Print Assumptions C09_triggs_is_newton_on_linearised_loss.
+Print Assumptions C09_fasttriggs_batch_flatten.
+Print Assumptions C09_triggs_batch_flatten.
+Print Assumptions C09_fasttriggs_grad_nested_batch.
+Print Assumptions C09_triggs_grad_nested_batch.
+Print Assumptions C09_fasttriggs_groups_grad.
+Print Assumptions C09_masked_witness.
+Print Assumptions C09_mixed_regime_witness.
+Print Assumptions C09_mixed_regime_kernel.
+Print Assumptions C09_newton_hypotheses_witness.
+Print Assumptions C09_builtin_descent_is_loss_gradient.
+Print Assumptions C09_params_satisfiable.
